@@ -84,7 +84,7 @@ def _spellings(c, ns, local, ctx):
     d = c.get_default_namespace()
     if d is not None and d.uri == ns:
         out.append(("bare", local))
-    if any((ns + local).startswith(n.uri) for n in c.namespaces):
+    if any((ns + local).startswith(n.uri) for n in c.namespaces) or (d is not None and (ns + local).startswith(d.uri)):
         out.append(("uri", ns + local))
     return out
 
